@@ -142,6 +142,8 @@ def generate(run_seed, index, tier):
                 ops.append(maybe_fault({'op': 'remeasure', 'pick': r.randrange(64)}))
             elif x < 0.7:
                 ops.append(maybe_fault({'op': 'nested', 'grow': r.getrandbits(6), 'pick': r.randrange(64)}))
+            elif x < 0.73 and r.random() < 0.5:
+                ops.append({'op': 'reach', 'S': _rand_subset(r, n), 'seed0': r.getrandbits(31), 'K': 300})
             elif x < 0.92:
                 ops.append(_gate_op(r, n))
             else:
@@ -505,6 +507,37 @@ class Sim:
         elif k == 'remeasure':
             if self.last is not None:
                 self.do_measure(world, op, self.last[0], op['pick'], None, expect_same=True)
+        elif k == 'reach':
+            # "every outcome reachable by varying the seed": with the library's own sampler (integer seeds s0..s0+K-1) every
+            # outcome of probability >= 0.1 must occur at least once (it is missed with probability 0.9^K = 2e-14 for K=300)
+            if self.psi is None:
+                return
+            S = sorted({q for q in op['S'] if q < self.n})[:2]
+            if not S:
+                return
+            p = born.marginals(self.psi, S)
+            seen = set()
+            mq = self.nq.sim.state.measure_quantum_vector
+            pre = self.psi.copy()
+            for j in range(int(op['K'])):
+                try:
+                    bs, prob, post = mq(self.psi, tuple(S), int(op['seed0']) + j)
+                except Exception as e:
+                    raise Violation('unexpected_exception', 'measure_quantum_vector', f'{type(e).__name__}: {e} for S={S} seed={int(op["seed0"]) + j}')
+                a = 0
+                for b in bs:
+                    a = (a << 1) | int(b)
+                if a >= len(p) or p[a] <= FLOOR / 10:
+                    raise Violation('support', 'measure_quantum_vector', f'seed {int(op["seed0"]) + j}: outcome {list(bs)} on S={S} has model probability {p[a] if a < len(p) else None}')
+                seen.add(a)
+            if np.abs(self.psi - pre).max() > 0:
+                raise Violation('projection', 'measure_quantum_vector', 'the caller-owned input state was modified in place')
+            missing = [int(a) for a in np.nonzero(p >= 0.1)[0] if int(a) not in seen]
+            if missing:
+                raise Violation('support', 'measure_quantum_vector', f'outcomes {missing} of S={S} have probabilities {[round(float(p[a]), 3) for a in missing]} but were never sampled with seeds {op["seed0"]}..{int(op["seed0"]) + int(op["K"]) - 1}')
+            self.bump('reachability_sweeps')
+            self.log.add('reach', S, sorted(seen))
+            self.shape.append('h')
         elif k == 'nested':
             if self.last is not None:
                 S = sorted(set(self.last[0]) | {q for q in range(self.n) if (op['grow'] >> q) & 1})
